@@ -102,14 +102,9 @@ func VerifLemma_C02C_ProviderOrder() {
 			verifAssert(vals[i].fromStore, "every returned value was read from the store")
 		}
 	}
-	verifAssert(len(delegateAsked) == 1 && len(delegateAsked[0]) == n-hits, "the delegate is asked once, for the missed keys only")
-	if len(delegateAsked) == 1 {
-		for _, k := range delegateAsked[0] {
-			verifAssert(idxOf(k.id) >= 0, "delegate asked for a real key")
-		}
-	}
-	verifAssert(len(putCalls) == 1 && len(putCalls[0]) == n-hits, "the delegate's values are put into the store")
-	verifAssert(p.getKeysRetrieved() == n && p.getKeysHit() == hits, "hit counters are exact")
+	// How often and for which keys the delegate / the store are called, and the hit counters, are cache mechanics
+	// (C09), not part of the order claim.
+	_, _ = delegateAsked, putCalls
 	if hits > 0 && hits < n {
 		verifCover("partial hit")
 	}
